@@ -2,7 +2,9 @@
 // Bounded-exhaustive enumeration of straight-line register programs over the scalar
 // operations of the Scalar interface (plus the vector/matrix reductions), executed on the
 // real Real64/Real32 types and compared register by register against an independent jet
-// reference model with running rounding bounds.
+// reference model with running rounding bounds. Programs are enumerated in SSA form and in
+// every destination-aliases-operand (in-place) form; registers are fresh or reused; variables
+// are fresh objects or re-activated former result registers.
 package main
 
 import (
@@ -58,11 +60,66 @@ type evalOpts struct {
 	fdAllPoints   bool // validate the model by finite differences at every point (else only at the first checked one)
 	fdNone        bool
 	helpers       bool
+	// alias > 0: also run every destination-aliases-operand form of the program (aliasVariants),
+	// at every alias-th point.
+	alias int
+	// react > 0: at every react-th point also run the program on variables that are re-activated
+	// after having served as result registers (stale order-1 / order-2 content, same N), through
+	// one of the activation routes (rotating through route x stale order with point and program);
+	react        int
+	helpersStale bool // Matrix.Hessian / Jacobian also on an argument carrying stale derivatives
+}
+
+// aliasLabel: key suffix of a failure that appears only in the in-place form of a program
+// (the SSA form of the same case passes): how the failing instruction aliases its operands,
+// or that an earlier instruction did.
+func aliasLabel(p *Program, reg int) string {
+	if reg >= 0 && reg < len(p.Ins) && p.Ins[reg].Dst != "" {
+		return "|in-place:dst=" + p.Ins[reg].Dst
+	}
+	return "|in-place:upstream"
+}
+
+func suffixFails(cs *Case, fails []failure) {
+	al := hasAlias(&cs.Prog)
+	if cs.Stale > 0 || cs.Act != "" {
+		// only reached when the same case passed on fresh variable objects activated by Variables():
+		// keyed by the activation route, whatever the program is
+		route := cs.Act
+		if route == "" {
+			route = "Variables"
+		}
+		for i := range fails {
+			fails[i].key = fmt.Sprintf("reactivation|%s|%s", route, cs.Type)
+			fails[i].what += fmt.Sprintf(" (variables re-activated through %s after use as order-%d result registers; passes on fresh variable objects)", route, cs.Stale)
+		}
+		return
+	}
+	for i := range fails {
+		if al {
+			fails[i].key += aliasLabel(&cs.Prog, fails[i].reg)
+		}
+		if cs.Pollute > 0 {
+			fails[i].key += "|reused-registers"
+		}
+	}
 }
 
 // evalCase runs one case and reports. Returns the comparison statistics.
 func (e *engine) evalCase(cs *Case, jets []Jet, m *Model, rank int64) (cmpStats, bool) {
 	rt := rtOf(cs.Type)
+	// Nothing is compared from the first register on that the reference model leaves undefined
+	// (operand outside the domain, NaN, overflow): the instructions behind it are not executed.
+	// (They would only be fed NaN/Inf; special.BesselI spends 10-20 ms per call on such an
+	// argument, which used to be four fifths of the CPU time of this check.)
+	for k := 0; k < len(jets)-1; k++ {
+		if jets[k].Status == stUndefined {
+			cs.Prog = Program{N: cs.Prog.N, Ins: cs.Prog.Ins[:k+1]}
+			jets = jets[:k+1]
+			e.c.Count("programs_cut_behind_first_undefined_register", 1)
+			break
+		}
+	}
 	p := &cs.Prog
 	e.c.Guard(finalName(p), rank, nil)
 	out := rt.run(p, cs, nil)
@@ -72,11 +129,18 @@ func (e *engine) evalCase(cs *Case, jets []Jet, m *Model, rank int64) (cmpStats,
 		e.c.Nontrivial(1)
 	}
 	e.c.Outcome(st.status)
-	if cs.Pollute > 0 {
-		// only reached when the same case passed on fresh registers: the failure is due to reuse
-		for i := range fails {
-			fails[i].key += "|reused-registers"
-		}
+	// an in-place form is only reached when the SSA form of the same case passed, a reused-register
+	// mode only when the same program passed on fresh registers: the failure is due to aliasing / reuse
+	suffixFails(cs, fails)
+	if hasAlias(p) {
+		e.c.Count("in_place_evaluations", 1)
+		e.c.Count(fmt.Sprintf("in_place_evaluations_depth%d_n%d", len(p.Ins), p.N), 1)
+	}
+	if st.kinks > 0 {
+		e.c.Count("kink_registers_bounded_by_one_sided_derivatives", int64(st.kinks))
+	}
+	if st.nonsmooth > 0 {
+		e.c.Count("nonsmooth_registers_structure_checked", int64(st.nonsmooth))
 	}
 	e.report(cs, fails, rank)
 	return st, len(fails) > 0
@@ -108,6 +172,17 @@ func (e *engine) runProgram(p *Program, pts [][]float64, o evalOpts) {
 	}
 	depth := int64(len(p.Ins))
 	fdDone := false
+	reactStride := o.react
+	var variants []Program
+	var variantFresh []bool
+	stride := o.alias
+	if stride > 0 {
+		variants = aliasVariants(p, nil)
+		for i := range variants {
+			variantFresh = append(variantFresh, usesFreshObjects(&variants[i]))
+		}
+		e.c.Count("in_place_programs", int64(len(variants)))
+	}
 	for _, typ := range e.types {
 		m := newModel(typ, p.N)
 		helpersDone := false
@@ -122,6 +197,7 @@ func (e *engine) runProgram(p *Program, pts [][]float64, o evalOpts) {
 			}
 			var stFresh cmpStats
 			for _, order := range e.orders {
+				var passed [3]bool
 				for pol := 0; pol <= 2; pol++ {
 					if pol > 0 && !o.pollAllPoints && pi >= 2 {
 						continue
@@ -129,11 +205,39 @@ func (e *engine) runProgram(p *Program, pts [][]float64, o evalOpts) {
 					cs := Case{Prog: *p, Type: typ, Order: order, X: xr, Pollute: pol}
 					rank := depth*1e15 + int64(pol)*1e14 + pis*1e10 + e.idx%1e10
 					st, failed := e.evalCase(&cs, jets, m, rank)
+					passed[pol] = !failed
 					if pol == 0 && order == 2 {
 						stFresh = st
 					}
 					if pol == 0 && failed {
 						break // the reused-register variants would only repeat this failure
+					}
+				}
+				// re-activated variables: same reference jets again. One (route, stale order) combination
+				// per point, rotating with the point and the program, so that every operation meets every
+				// combination on its lattice
+				if rs := reactStride; rs > 0 && passed[0] && pi%rs == 0 {
+					k := (int64(pi/rs) + e.idx) % int64(2*len(actRoutes))
+					cs := Case{Prog: *p, Type: typ, Order: order, X: xr, Stale: 1 + int(k%2), Act: actRoutes[k/2]}
+					rank := depth*1e15 + 7e13 + pis*1e10 + e.idx%1e10
+					e.evalCase(&cs, jets, m, rank)
+					e.c.Count("reactivated_variable_evaluations", 1)
+				}
+				// in-place forms: same reference jets (the model does not care about object identity);
+				// run only where the SSA form passed, so that a failure is due to the aliasing
+				if len(variants) == 0 || !passed[0] || pi%stride != 0 {
+					continue
+				}
+				for vi := range variants {
+					for pol := 0; pol <= 2; pol++ {
+						if pol > 0 && (!passed[pol] || !variantFresh[vi]) {
+							continue
+						}
+						cs := Case{Prog: variants[vi], Type: typ, Order: order, X: xr, Pollute: pol}
+						rank := depth*1e15 + 5e13 + int64(pol)*1e14 + pis*1e10 + e.idx%1e10
+						if _, failed := e.evalCase(&cs, jets, m, rank); failed && pol == 0 {
+							break
+						}
 					}
 				}
 			}
@@ -152,7 +256,11 @@ func (e *engine) runProgram(p *Program, pts [][]float64, o evalOpts) {
 					}
 				}
 				cs := Case{Prog: *p, Type: typ, Order: 2, X: xr}
-				e.report(&cs, matrixHelperChecks(rt, p, &cs), depth*1e15+pis*1e10+e.idx%1e10)
+				hf := matrixHelperChecks(rt, p, &cs, 0)
+				for stale := 1; stale <= 2 && len(hf) == 0 && o.helpersStale; stale++ {
+					hf = matrixHelperChecks(rt, p, &cs, stale)
+				}
+				e.report(&cs, hf, depth*1e15+pis*1e10+e.idx%1e10)
 			}
 			// self validation of the reference model against finite differences of its own value function
 			if typ == "Real64" && !o.fdNone && (o.fdAllPoints || !fdDone) && stFresh.nontrivial {
@@ -281,11 +389,13 @@ func (e *engine) fdPass(p *Program, x []float64, ref *Jet, scale float64) (map[s
 
 // ---- phases ----------------------------------------------------------------------------------------------
 
+const firstPointOnly = 1 << 30 // a stride no point index but 0 is a multiple of
+
 const filler = 1.25 // value of variables a depth-1 program does not read
 
 // depth-1 scalar programs on their boundary lattices
 func (e *engine) phaseDepth1Scalar() {
-	opt := evalOpts{pollAllPoints: true, fdAllPoints: true, helpers: true}
+	opt := evalOpts{pollAllPoints: true, fdAllPoints: true, helpers: true, alias: 1, react: 1, helpersStale: true}
 	for _, op := range opsOfKind(Unary, false) {
 		o := ops[op]
 		for _, typ := range e.types {
@@ -311,13 +421,14 @@ func (e *engine) phaseDepth1Scalar() {
 					e.runProgram(&p, pts, opt)
 				}
 			}
-			// constant / plain operand: one program per lattice point
-			for _, kind := range []byte{'K', 'P'} {
+			// constant / plain operand / magic-typed scalar holding a constant (which can be its own
+			// destination): one program per lattice point
+			for _, kind := range []byte{'K', 'P', 'C'} {
 				for _, v := range lat {
 					in := mkInstr(op)
 					in.A = Operand{K: kind, V: v}
 					p := Program{N: 1, Ins: []Instr{in}}
-					e.runProgram(&p, [][]float64{{filler}}, evalOpts{pollAllPoints: true, fdNone: true})
+					e.runProgram(&p, [][]float64{{filler}}, evalOpts{pollAllPoints: true, fdNone: true, alias: 1})
 				}
 			}
 			e.types = save
@@ -361,9 +472,10 @@ func (e *engine) phaseDepth1Scalar() {
 				}
 				e.runProgram(&p, pts, opt)
 			}
-			// variable with constant / plain, constant with constant
-			for _, ka := range []byte{'V', 'K', 'P'} {
-				for _, kb := range []byte{'V', 'K', 'P'} {
+			// variable with constant / plain / constant-valued magic scalar (the accumulator pattern
+			// s.Add(s, x) is the in-place form of Add(C, V)), constant with constant
+			for _, ka := range []byte{'V', 'K', 'P', 'C'} {
+				for _, kb := range []byte{'V', 'K', 'P', 'C'} {
 					if ka == 'V' && kb == 'V' {
 						continue
 					}
@@ -380,7 +492,7 @@ func (e *engine) phaseDepth1Scalar() {
 							x[0] = pr.b
 						}
 						p := Program{N: 1, Ins: []Instr{in}}
-						e.runProgram(&p, [][]float64{x}, evalOpts{pollAllPoints: true, fdAllPoints: true})
+						e.runProgram(&p, [][]float64{x}, evalOpts{pollAllPoints: true, fdAllPoints: true, alias: 1, react: 1})
 					}
 				}
 			}
@@ -405,7 +517,7 @@ func (e *engine) phaseDepth1Reduce(thorough bool) {
 		pts := gridPoints(grid, n)
 		reduceInstrs(n, 0, maxLen, -1, thorough, func(in Instr) {
 			p := Program{N: n, Ins: []Instr{in}}
-			e.runProgram(&p, pts, evalOpts{pollAllPoints: n <= 2, helpers: true})
+			e.runProgram(&p, pts, evalOpts{pollAllPoints: n <= 2, helpers: true, react: 1, helpersStale: true})
 		})
 	}
 }
@@ -426,13 +538,20 @@ func (e *engine) phaseDepth2Scalar(thorough bool) {
 		if n == 3 {
 			ptsHeavy = gridPoints(compGridSmall, n)
 		}
+		// in-place forms: every grid point for one and two variables, every 5th point for three
+		// variables (a stride coprime to the grid size, so that every coordinate runs through all its
+		// values); re-activated variables: at the first grid point
+		opt := evalOpts{helpers: true, alias: 1, react: firstPointOnly}
+		if n == 3 {
+			opt.alias = 5
+		}
 		scalarInstrs(n, 0, all, -1, func(i1 Instr) {
 			scalarInstrs(n, 1, all, 0, func(i2 Instr) {
 				p := Program{N: n, Ins: []Instr{i1, i2}}
 				if hasHeavy(&p) {
-					e.runProgram(&p, ptsHeavy, evalOpts{helpers: true})
+					e.runProgram(&p, ptsHeavy, opt)
 				} else {
-					e.runProgram(&p, pts, evalOpts{helpers: true})
+					e.runProgram(&p, pts, opt)
 				}
 			})
 		})
@@ -456,6 +575,9 @@ func (e *engine) phaseDepth2Reduce(thorough bool) {
 		if thorough && n <= 2 {
 			maxLen = 3
 		}
+		// in-place forms of the scalar instruction (x.Exp(x) feeding a reduction, r.Vmean(v); r.Exp(r))
+		// at every 2nd grid point; re-activated variables at the first grid point
+		optR := evalOpts{alias: 2, react: firstPointOnly}
 		// scalar op feeding a reduction
 		scalarInstrs(n, 0, all, -1, func(i1 Instr) {
 			if n == 3 {
@@ -472,7 +594,7 @@ func (e *engine) phaseDepth2Reduce(thorough bool) {
 					return
 				}
 				p := Program{N: n, Ins: []Instr{i1, i2}}
-				e.runProgram(&p, pts, evalOpts{})
+				e.runProgram(&p, pts, optR)
 			})
 		})
 		// reduction feeding a scalar op
@@ -482,7 +604,7 @@ func (e *engine) phaseDepth2Reduce(thorough bool) {
 			}
 			scalarInstrs(n, 1, all, 0, func(i2 Instr) {
 				p := Program{N: n, Ins: []Instr{i1, i2}}
-				e.runProgram(&p, pts, evalOpts{})
+				e.runProgram(&p, pts, optR)
 			})
 		})
 	}
@@ -611,25 +733,64 @@ func replay(c *vf.Ctx, raw json.RawMessage) {
 	m := newModel(cs.Type, cs.Prog.N)
 	jets := m.EvalProgram(&cs.Prog, cs.X, nil)
 	rt := rtOf(cs.Type)
-	out := rt.run(&cs.Prog, &cs, nil)
-	fails, st := compareRegs(m, &cs.Prog, &cs, &out, jets)
-	if out.panicAt < 0 && len(fails) == 0 {
-		fails = append(fails, helperChecks(rt, &cs.Prog, &cs, out.regs[len(out.regs)-1])...)
-		fails = append(fails, matrixHelperChecks(rt, &cs.Prog, &cs)...)
+	// the same ladder as the explorer: SSA form on fresh registers and fresh variables, SSA form on
+	// reused registers, in-place form on fresh registers, in-place form on reused registers,
+	// re-activated variables; the first rung that fails names the cause
+	base := cs
+	base.Prog = stripAlias(&cs.Prog)
+	base.Pollute, base.Stale, base.Act = 0, 0, ""
+	ladder := []Case{base}
+	if cs.Pollute > 0 {
+		r := base
+		r.Pollute = cs.Pollute
+		ladder = append(ladder, r)
 	}
-	fmt.Printf("replay: [%v] type=%s order=%d x=%v pollute=%d -> status=%q\n", cs.Prog, cs.Type, cs.Order, cs.X, cs.Pollute, st.status)
+	if hasAlias(&cs.Prog) {
+		r := base
+		r.Prog = cs.Prog
+		ladder = append(ladder, r)
+		if cs.Pollute > 0 {
+			r.Pollute = cs.Pollute
+			ladder = append(ladder, r)
+		}
+	}
+	if cs.Stale > 0 || cs.Act != "" {
+		ladder = append(ladder, cs)
+	}
+	var fails []failure
+	var st cmpStats
+	var out runOut
+	var cc Case
+	for i := range ladder {
+		cc = ladder[i]
+		out = rt.run(&cc.Prog, &cc, nil)
+		fails, st = compareRegs(m, &cc.Prog, &cc, &out, jets)
+		if len(fails) > 0 {
+			break
+		}
+	}
+	if out.panicAt < 0 && len(fails) == 0 {
+		fails = append(fails, helperChecks(rt, &cc.Prog, &cc, out.regs[len(out.regs)-1])...)
+		for stale := 0; stale <= 2 && len(fails) == 0; stale++ {
+			fails = append(fails, matrixHelperChecks(rt, &base.Prog, &base, stale)...)
+		}
+	} else {
+		suffixFails(&cc, fails)
+	}
+	fmt.Printf("replay: [%v] type=%s order=%d x=%v pollute=%d -> status=%q\n", cc.Prog, cc.Type, cc.Order, cc.X, cc.Pollute, st.status)
 	for k := range out.regs {
-		fmt.Printf("  R%d = %v  gradient=%v\n", k, out.regs[k].GetFloat64(), gradOf(out.regs[k], cs.Prog.N))
+		over := ""
+		for l := k + 1; l < len(cc.Prog.Ins); l++ {
+			if t, ok := cc.Prog.Ins[l].target(); ok && t.K == 'R' && t.I == k {
+				over = fmt.Sprintf("  (copy taken before R%d overwrote the object in place)", l)
+			}
+		}
+		fmt.Printf("  R%d = %v  gradient=%v%s\n", k, out.regs[k].GetFloat64(), gradOf(out.regs[k], cs.Prog.N), over)
 		if k < len(jets) {
 			fmt.Printf("       reference value %v gradient %v status %d %s\n", jets[k].Val.V, jets[k].G[:cs.Prog.N], jets[k].Status, jets[k].Why)
 		}
 	}
-	if cs.Pollute > 0 {
-		for i := range fails {
-			fails[i].key += "|reused-registers"
-		}
-	}
-	e.report(&cs, fails, 0)
+	e.report(&cc, fails, 0)
 }
 
 func gradOf(r interface {
@@ -649,10 +810,15 @@ func main() {
 		Level: "exploration",
 		Rule: "every straight-line register program over the scalar operations of the Scalar interface (36 unary incl. parameters, 9 binary, 9 reductions) with every operand slot ranging over variables / ConstFloat64 literal / plain Float64 / earlier result registers, every result used; " +
 			"depth 1 at per-operation boundary lattices (all piecewise branch boundaries with +-1,+-2 ulp neighbours), depth 2 (thorough: 3) on the full composition grid; orders 1 and 2; 1..3 variables; Real64 and Real32; fresh and reused (stale) registers. " +
+			"Every scalar instruction also in its destination-aliases-operand forms (dst = operand a, dst = operand b, both slots and the destination one object: t.Exp(t), t.Mul(t,x), t.Sub(x,t), t.Mul(t,t); on variables, result registers and constant-valued magic scalars; all combinations over the instructions of a program in which no overwritten name is read again; depth 1: every lattice point, depth 2: every grid point for 1-2 variables, every 5th for 3 variables, every 2nd in programs with a reduction), judged against the same reference jets as the SSA form; reductions whose receiver is an element of their own operand are the C08 family and are not repeated here. " +
+			"Variables that are re-activated after having served as order-1/order-2 result registers (same N), through Variables / SetVariable / DenseVector.Variables / DenseMatrix.Variables (one route x stale-order combination per point, rotating; depth 1: every point, depth 2: first grid point) and as argument of Matrix.Hessian / Matrix.Jacobian. " +
 			"A case (program, point, order, type, register reuse mode) is distinct by construction; it counts as non-trivial when the final register depends on at least one variable, every intermediate is inside the operation's domain and finite, and the reference tolerance of every compared component is below 1e-6 (Real32: 1e-2) of the jet's scale",
 		Assume: []string{
 			"Go's math package (Exp, Log, Erf, Erfc, Gamma, Lgamma, ...) is accurate to a few ulps; it is used as primitive by the reference model",
-			"derivatives are not demanded at kinks (Abs at 0, Min/Max ties between different functions) nor on the boundary of an operation's domain (Sqrt at 0, GammaP at 0); only the value is compared there",
+			"at a kink between two smooth pieces (Abs at 0, Min/Max tie between different functions) no particular derivative is demanded: every gradient / Hessian slot must be finite and lie between the two one-sided derivatives (tolerance included), slots of variables the register does not depend on must be exactly zero, the Hessian symmetric",
+			"on the boundary of an operation's domain (Sqrt at 0, GammaP at 0) and behind a kink only the value, Hessian symmetry and the absence of finite nonzero content in slots of independent variables are checked",
+			"the instructions behind the first register the reference model leaves undefined (outside the domain, NaN, out of range) are not executed; nothing could be compared there",
+			"an in-place instruction leaves the overwritten variable / register dead (programs reading it again have no SSA equivalent and are not enumerated); the result of an overwritten register is compared on a copy (CloneMagicScalar) taken just before",
 			"reused registers stem from a computation over the same number of variables (the library documents mixing different numbers of variables as misuse)",
 			"a nonzero reference component outside [1e-100,1e100] (Real32: [1e-30,1e30]) makes a case out of range; it is executed but not compared",
 		},
